@@ -70,12 +70,37 @@ fn emit_into(rec: &mut Rec, label: &str, m: &mut walrus::Module) -> Option<Vec<u
     }
 }
 
-fn attach_probe(p: &mut Parsed, roots: bool) -> Arc<Mutex<ProbeOut>> {
+fn attach_probe(p: &mut Parsed, roots: Option<(&[u8], &mut Rec)>) -> Arc<Mutex<ProbeOut>> {
     let out = Arc::new(Mutex::new(ProbeOut::default()));
     let ids = p.onparse.lock().unwrap().ids.clone();
     let mut probe = Probe::capture(&p.module, &ids, out.clone());
-    let _ = roots;
     probe.roots = vec![];
+    if let Some((input, rec)) = roots {
+        // custom-section roots: a seeded choice of entities by input index, logged for the judge
+        let mut rng = wv_gen::rng::Rng::new(wv_gen::rng::fnv64(input) ^ 0x7007);
+        let mut s = String::new();
+        if !ids.funcs.is_empty() && rng.chance(2, 3) {
+            let i = rng.usize(ids.funcs.len());
+            probe.roots.push(probe::LiveId::F(ids.funcs[i]));
+            s.push_str(&format!("F {}\n", i));
+        }
+        if !ids.globals.is_empty() && rng.chance(1, 2) {
+            let i = rng.usize(ids.globals.len());
+            probe.roots.push(probe::LiveId::G(ids.globals[i]));
+            s.push_str(&format!("G {}\n", i));
+        }
+        if !ids.tables.is_empty() && rng.chance(1, 3) {
+            let i = rng.usize(ids.tables.len());
+            probe.roots.push(probe::LiveId::T(ids.tables[i]));
+            s.push_str(&format!("T {}\n", i));
+        }
+        if !ids.memories.is_empty() && rng.chance(1, 3) {
+            let i = rng.usize(ids.memories.len());
+            probe.roots.push(probe::LiveId::M(ids.memories[i]));
+            s.push_str(&format!("M {}\n", i));
+        }
+        rec.push_s("gc.roots", &s);
+    }
     p.module.customs.add(probe);
     out
 }
@@ -132,7 +157,7 @@ pub fn run(input: &[u8], scn: &str, rec: &mut Rec) {
         }
     }
     if o.has("emit") {
-        let pr = if probe { Some(attach_probe(&mut p, false)) } else { None };
+        let pr = if probe { Some(attach_probe(&mut p, None)) } else { None };
         let first = emit_into(rec, "emit", &mut p.module);
         if let Some(pr) = &pr {
             log_probe(rec, "emit", pr);
@@ -170,7 +195,7 @@ pub fn run(input: &[u8], scn: &str, rec: &mut Rec) {
             Err(pan) => rec.push_s("panic.gc.parse", &pan),
             Ok(Err(e)) => rec.push_s("err.gc.parse", &e),
             Ok(Ok(mut p2)) => {
-                let pr = if probe { Some(attach_probe(&mut p2, o.has("roots"))) } else { None };
+                let pr = if probe { Some(attach_probe(&mut p2, if o.has("roots") { Some((input, &mut *rec)) } else { None })) } else { None };
                 match guarded(|| walrus::passes::gc::run(&mut p2.module)) {
                     Err(pan) => rec.push_s("panic.gc.run", &pan),
                     Ok(()) => {
